@@ -34,7 +34,7 @@ COLS = {"x": [0.5 + 0.37 * ((i * 5) % 7) for i in range(N)], "z": [1.9 - 0.21 * 
 PY_PREC = {"==": 1, "!=": 1, "<": 1, "<=": 1, ">": 1, ">=": 1, "+": 2, "-": 2, "*": 3, "/": 3, "**": 5}
 UNARY_PREC = 4
 CMP = ["==", "!=", "<", "<=", ">", ">="]
-STRINGS = ["'a'", '"b"', "'a b'", '"c, d"', "'e)f'", "'g[h]'", "'say \"hi\"'", '"it\'s"', "''", "'x + z'"]
+STRINGS = ["'a'", '"b"', "'a b'", "'Zürich'", '"naïve – ñ"', '"c, d"', "'e)f'", "'g[h]'", "'say \"hi\"'", '"it\'s"', "''", "'x + z'"]
 NUMS = ["1", "2", "3", "12", "1.5", "0.5", "2.25", ".5", "3.0"]
 
 
